@@ -88,12 +88,17 @@ Proof.
       * destruct (r_time r) as [|tm] eqn:Etm.
         -- cbn [negb andb orb Nat.eqb].
            set (v := r_v r) in *.
-           destruct (if push then let '(s1, reply) := p_push_set P s v in (s1, vol v - vol reply) else (s, vol v))
-             as [s1 rem] eqn:Ep.
+           assert (Hp : 0 < vol v) by (pose proof (Qltb_false _ _ Et); pose proof eps_pos; lra).
+           destruct (if push then let '(s1, reply) := p_push_set P s v in (s1, vol v - vol reply, vsub v reply, reply)
+                     else (s, vol v, vchange v (vol v), vchange v (vol v - vol v)))
+             as [[[s1 rem] dlv] bck] eqn:Ep.
+           assert (Hsplit : forall c, conserved c -> cmp c dlv + cmp c bck == cmp c v).
+           { intros c Hc. destruct push.
+             - destruct (p_push_set P s v) as [s2 reply]. inversion Ep; subst. rewrite cmp_sub by exact Hc. ring.
+             - inversion Ep; subst. exact (change_split_pos c v (vol v) Hc Hp). }
            apply IH in H. destruct H as [H1 H2]. split; [exact H1|].
            intros c Hc. rewrite (H2 c Hc), !cmp_sum by exact Hc. cbn [qsumc]. fold v.
-           assert (Hp : 0 < vol v) by (pose proof (Qltb_false _ _ Et); pose proof eps_pos; lra).
-           pose proof (change_split_pos c v rem Hc Hp). lra.
+           pose proof (Hsplit c Hc). lra.
         -- cbn [negb andb orb Nat.eqb].
            destruct (q_update_loop S P push rs s fout removed back) as [[[[rs1 s1] fo1] rm1] bk1] eqn:El.
            inversion H; subst. destruct (IH _ _ _ _ _ _ _ _ _ El) as [H1 H2].
